@@ -1513,9 +1513,14 @@ func (stmt *UpsertIntoStmt) execAt(ctx context.Context, tx *SQLTx, params map[st
 			return nil, ErrMaxKeyLengthExceeded
 		}
 
-		_, err = tx.get(ctx, mappedPKey)
+		pkRef, err := tx.get(ctx, mappedPKey)
 		if err != nil && !errors.Is(err, store.ErrKeyNotFound) {
 			return nil, err
+		}
+
+		if err == nil && pkRef.KVMetadata() != nil && pkRef.KVMetadata().Deleted() {
+			// the row was deleted earlier by this very transaction
+			err = store.ErrKeyNotFound
 		}
 
 		if errors.Is(err, store.ErrKeyNotFound) && pkMustExist {
